@@ -111,7 +111,9 @@ theorem cnFail_links (cfg : Cfg) (n : N) (w : Who) : (cnFail cfg n w).1.links.le
       · split
         · split
           · rw [knCleanup_len]; simp [setCn_links]
-          · simp only [N.ev]; rw [cnStop_len]; simp [setCn_links]
+          · split
+            · simp only [N.ev]; rw [cnStop_len]; simp [setCn_links]
+            · simp only [N.ev]; rw [cnStop_len]; simp [setCn_links]
         · simp [setCn_links]
       · simp [setCn_links]
     · simp [setCn_links]
